@@ -71,7 +71,7 @@ def corpus(tier, seed):
     # matmul: shapes around the width multiples of every ISA + fixed boundary shapes
     shapes = [(5, 3, 7), (4, 9, 13), (9, 2, 1), (17, 5, 18), (1, 7, 1), (8, 3, 23), (2, 2, 2), (3, 3, 3), (12, 4, 33)]
     for t in TYPES:
-        ss = rng.sample(shapes, nm) + [(rng.randint(1, 12), rng.randint(1, 9), rng.randint(1, 35)) for _ in range(nm)]
+        ss = rng.sample(shapes, min(nm, len(shapes))) + [(rng.randint(1, 12), rng.randint(1, 9), rng.randint(1, 35)) for _ in range(nm)]
         for (m, k, n) in ss:
             calls.append("c_mm<%s,%d,%d,%d>(%du);" % (t, m, k, n, sd()))
     tags = {"l": "UpLoType::Lower", "u": "UpLoType::Upper", "g": "UpLoType::General"}
@@ -205,11 +205,28 @@ def run(tier, seed):
     calls = corpus(tier, seed)
     per_tu = 9 if tier == "quick" else 12
     tus = symrun.chunk(calls, per_tu)
+    # which translation units are built under which configuration: the quick tier builds its whole (small) corpus under
+    # its 12 covering configurations; the thorough tier builds the small corpus under the full grid and every macro cell,
+    # and the large corpus under the 12 covering configurations (the full product would be ~3000 compiler runs)
+    ncover = len(configs("quick"))
+    small = set(corpus("quick", seed))
+    if tier == "thorough":
+        calls = calls + [c for c in corpus("quick", seed) if c not in set(calls)]
+    def wanted(ci, ti):
+        if tier == "quick" or ci < ncover:
+            return True
+        return any(c in small for c in tus[ti])
+    if tier == "thorough":
+        # regroup so that the small corpus sits in its own translation units
+        big = [c for c in calls if c not in small]
+        tus = symrun.chunk([c for c in calls if c in small], per_tu) + symrun.chunk(big, per_tu)
     with core.Scratch() as wd:
         nprobe, pmism, psamples = run_probe(v, wd, tier)
         jobs = []; meta = {}
         for ci, c in enumerate(cfgs):
             for ti, cs in enumerate(tus):
+                if not wanted(ci, ti):
+                    continue
                 name = "c%d_t%d" % (ci, ti)
                 jobs.append(job(name, c, "cfg_corpus.h", cs)); meta[name] = (ci, ti)
         res = core.build_and_run(jobs, wd)
@@ -220,8 +237,8 @@ def run(tier, seed):
         rejected = []   # (config, call, error)
         retry = []; rmeta = {}
         for ti, cs in enumerate(tus):
-            oks = [ci for ci in range(len(cfgs)) if status[(ci, ti)]]
-            bad = [ci for ci in range(len(cfgs)) if not status[(ci, ti)]]
+            oks = [ci for ci in range(len(cfgs)) if status.get((ci, ti)) is True]
+            bad = [ci for ci in range(len(cfgs)) if status.get((ci, ti)) is False]
             if bad:
                 for ci in bad:
                     for k, call in enumerate(cs):
@@ -300,7 +317,7 @@ def run(tier, seed):
         "evaluations": pairs + nprobe, "distinct_nontrivial": multi,
         "rule": "one evaluation = one corpus case under one configuration (plus one per flag set of the configuration-table probe); "
                 "non-trivial = a case that ran under at least three different instruction-set flag sets",
-        "configs": [cname(c) for c in cfgs], "n_configs": len(cfgs), "corpus_calls": len(calls), "cases": len(cases),
+        "configs": [cname(c) for c in cfgs], "n_configs": len(cfgs), "compiler_runs": len(jobs), "corpus_calls": len(calls), "cases": len(cases),
         "exact_cases": nexact, "approx_cases": napprox, "approx_worst_ratio_to_tolerance": round(worst, 4),
         "probe_flagsets": nprobe, "probe_mismatches": pmism, "compile_rejections": len(rejected), "crashes": len(crashed),
         "samples": [{"flagset": s[0], "input": s[1], "impl": s[2][:300], "model": s[3][:300]} for s in psamples] +
